@@ -245,3 +245,42 @@ Theorem C17_handle_observer_writes_refuted :
   snd (run (toy_obs_inv false) nat nat toy_compute toy_eff toy_obs_prog [fresh nat (fun _ => 6%nat)]) = [6; 6; 6]%nat.
 Proof. exact toy_observer_writes. Qed.
 Print Assumptions C17_handle_observer_writes_refuted.
+
+(* ------------------------------------------------------------------------------------------
+   Partition columns (wave 4; Impl/PartNames.v on top of the C08 model of the paths, Impl/Partition.v):
+   for EVERY non-empty list of files (path, rows), every iteration order of the directory set, every pandas metadata:
+   when the read succeeds, the partition columns of every row it delivers are exactly - names and order - what the handle
+   reports as partition_names (= the keys of cats): what the PATHS of the handle's row groups show decides both, a partial
+   view of a partitioned dataset (one part file, a sub-directory, a list without root=) reports and reads fewer levels.
+   The variant that answers from the pandas metadata first is refuted by a witness (one part file opened alone).       *)
+From Pq Require Import Impl.Partition Impl.PartNames Proofs.PartNamesProofs.
+
+Theorem C17_partition_names_reported_eq_read :
+  forall (F T D : Type) (feqb : F -> F -> bool) (teqb : T -> T -> bool) (deqb : D -> D -> bool) (f_eq_Z : F -> BinNums.Z -> bool)
+         (parse_float : bool -> str -> option F) (parse_time_np : bool -> str -> option T)
+         (parse_time_fmt parse_time_pd : str -> option T) (parse_delta : str -> option D) (P : Type)
+         pm ord (files : list (str * list (row F T D P))) (meta : list str) s rows,
+    files <> [] ->
+    read_model F T D feqb teqb deqb f_eq_Z parse_float parse_time_np parse_time_fmt parse_time_pd parse_delta P pm ord files = Some (s, rows) ->
+    exists names,
+      partition_names F T D
+        (paths_to_cats F T D feqb teqb deqb f_eq_Z parse_float parse_time_np parse_time_fmt parse_time_pd parse_delta
+                       pm (map fst files) (ord (dedup_str (map strip_tail (map fst files)))))
+        (List.length files) meta = Ok names /\
+      forall cells p, In (cells, p) rows -> map fst cells = names.
+Proof. exact partition_names_reported_eq_read. Qed.
+Print Assumptions C17_partition_names_reported_eq_read.
+
+Theorem C17_partition_names_meta_first_refuted :
+  let files : list (str * list (row unit unit unit unit)) := [([], [([], tt)])] in
+  let meta := [s_ "p"] in
+  let part := paths_to_cats unit unit unit (fun _ _ => true) (fun _ _ => true) (fun _ _ => true) (fun _ _ => false)
+                            (fun _ _ => None) (fun _ _ => None) (fun _ => None) (fun _ => None) (fun _ => None)
+                            [] (map fst files) (dedup_str (map strip_tail (map fst files))) in
+  read_model unit unit unit (fun _ _ => true) (fun _ _ => true) (fun _ _ => true) (fun _ _ => false)
+             (fun _ _ => None) (fun _ _ => None) (fun _ => None) (fun _ => None) (fun _ => None) unit
+             [] (fun l => l) files = Some (Simple, [([], tt)]) /\
+  partition_names unit unit unit part (List.length files) meta = Ok [] /\
+  partition_names_meta_first unit unit unit part meta = Ok [s_ "p"].
+Proof. exact partition_names_meta_first_refuted. Qed.
+Print Assumptions C17_partition_names_meta_first_refuted.
